@@ -24,6 +24,8 @@ EXPLANATION = (
     "side_by_side_tiff_init, a noexcept member or a destructor. Exhaustive within "
     "the abstraction (constants, enumerators, pointers; counters unknown); OS "
     "behaviour (flock, hangs inside system calls) is not modelled.")
+EXPLANATION += (' file_write ADVANCE / COMPLETE / VARIANT by the linear domain.')
+
 
 
 def loop_progress(prog, res, fname="file_write"):
